@@ -462,12 +462,52 @@ def check_fastmath_guards(idx: Index, rep: Report) -> None:
             r.ok(inst, f"{f.module.relpath}:{c.lineno} rewrite under nnan and nsz")
 
 
+def check_cse_scopes(idx: Index, rep: Report) -> None:
+    """CSE opens a scope per region by building `KnownOps(self._known_ops)` and restores the old object afterwards:
+    that only forgets the operations recorded inside the region if the new scope holds its own table."""
+    from ..paths import enum_paths
+
+    r = rep.rule("C14.R9", "a nested CSE scope owns a copy of the enclosing table: operations recorded inside a region are forgotten when the region is left (they do not dominate what follows)", floor=2)
+    drv = idx.func(CSE, "CSEDriver._simplify_region") if idx.try_func(CSE, "CSEDriver._simplify_region") else idx.func(CSE, "CSEDriver.simplify_region")
+    pushes = [n for n in walk_local(drv.raw_node) if isinstance(n, ast.Assign) and unparse(n.targets[0]) == "self._known_ops" and isinstance(n.value, ast.Call)]
+    if not pushes:
+        raise AnalysisError(f"{drv.fq}: scope push `self._known_ops = <new scope>(...)` not found")
+    for n in pushes:
+        ctor = unparse(n.value.func)
+        if ctor != "KnownOps" or [unparse(a) for a in n.value.args] not in (["self._known_ops"], []):
+            raise AnalysisError(f"{drv.fq}: scope push `{unparse(n)}` not understood")
+        r.ok(f"{drv.fq}:push@{n.lineno}", f"{drv.loc} `{unparse(n)}`")
+    init = idx.func(CSE, "KnownOps.__init__")
+    arg = init.node.args.args[1].arg
+    seen = 0
+    for pth in enum_paths(init.node):
+        if not pth.feasible():
+            continue
+        nf = pth.nfacts()
+        if (f"{arg} is None", True) in nf:
+            continue
+        for k, e_ in enumerate(pth.effects):
+            if isinstance(e_, ast.Assign) and unparse(e_.targets[0]) == "self._known_ops":
+                v = pth.res(e_.value, k)
+                seen += 1
+                src = rf"{re.escape(arg)}\._known_ops"
+                if re.fullmatch(rf"dict\({src}\)|{src}\.copy\(\)|\{{\*\*{src}\}}|copy\.copy\({src}\)|dict\({src}\.items\(\)\)|\{{k: v for k, v in {src}\.items\(\)\}}", v):
+                    r.ok(init.fq, f"{init.loc} nested scope table is `{v}`")
+                elif re.fullmatch(src, v):
+                    r.fail(init.fq, Finding("C14.R9", init.fq, "scope-aliases-parent", f"`KnownOps({arg})` stores `{v}` itself, not a copy: the scope opened for a region shares its table with the enclosing scope, so an operation recorded inside an scf.if / scf.for body is still 'known' after the region and a later equal operation is replaced by a value defined in a region that may not execute (and does not dominate it)", init.loc))
+                else:
+                    raise AnalysisError(f"{init.fq}: table of a nested scope `{v}` not understood")
+    if not seen:
+        raise AnalysisError(f"{init.fq}: no assignment of self._known_ops for a given parent scope")
+
+
 def check(idx: Index, rep: Report, tier: str) -> str:
     rep.run(check_truncation, idx, rep)
     rep.run(check_exceptions, idx, rep)
     rep.run(check_tables, idx, rep)
     rep.run(check_fold_guards, idx, rep)
     rep.run(check_cse, idx, rep)
+    rep.run(check_cse_scopes, idx, rep)
     rep.run(check_int_division, idx, rep)
     rep.run(check_truth_propagation, idx, rep)
     rep.run(check_fastmath_guards, idx, rep)
